@@ -246,6 +246,8 @@ func zvC36Deltas() []zvC36Delta {
 		{Name: "local_as=65010", F: func(s *zvC36Set) { s.LocalAS = 65010 }, Core: true},
 		{Name: "hold_time=30", F: func(s *zvC36Set) { s.Hold = 30 }, Core: true},
 		{Name: "ttl=5", F: func(s *zvC36Set) { s.TTL = 5 }, Core: true, CoreN: true},
+		// 1 is also what an external session without a ttl sends, but then the socket is set not to route as well
+		{Name: "ttl=1", F: func(s *zvC36Set) { s.TTL = 1 }, Core: true},
 		{Name: "passive=true", F: func(s *zvC36Set) { s.Passive = 1 }, Core: true},
 		{Name: "passive=false", F: func(s *zvC36Set) { s.Passive = 2 }},
 		{Name: "rr_client=true", F: func(s *zvC36Set) { s.RR = 1 }, Core: true},
